@@ -157,11 +157,20 @@ def rule_line_number(prog, root, fixture=False, formula=None):
     else:
         expr, tree = formula, parse_c_expr(formula)
     r.info["documented_expression"] = expr
-    ev = Evaluator(prog, lambda b, i, w: None)
+    def hook(base, index, width):
+        if base is not None and base.get("n") == "<operand>" and 0 <= index <= 2:
+            return BV.var("b%d" % (index + 1), 8).resize(width)
+        return None
+    ev = Evaluator(prog, hook)
     for fn in prog.fn("print_target_line_number", required=not fixture):
-        if len(fn.params) != 3:
-            raise AnalysisBroken("print_target_line_number no longer takes three bytes")
-        args = [BV.var("b%d" % (i + 1), 8) for i in range(3)]
+        if len(fn.params) == 3 and all(p.get("w") for p in fn.params):
+            args = [BV.var("b%d" % (i + 1), 8) for i in range(3)]
+        elif len(fn.params) == 1 and "*" in (fn.params[0].get("ct") or fn.params[0].get("t") or ""):
+            # the three operand bytes are passed by pointer
+            args = [("ptr", {"n": "<operand>"}, 0)]
+        else:
+            r.undecided.append("print_target_line_number takes neither three bytes nor a pointer to them")
+            continue
         env = eval_prefix(ev, fn, args)
         # the value printed: argument of the %u conversion
         printed = None
@@ -176,15 +185,31 @@ def rule_line_number(prog, root, fixture=False, formula=None):
         try:
             got = ev._expr(fn, printed, env, 0)
         except Unsupported as e:
-            raise AnalysisBroken("cannot evaluate the printed line number: %s" % e)
+            r.undecided.append("cannot evaluate the printed line number in the bit domain: %s" % e)
+            continue
         if len(got) != 1:
             raise AnalysisBroken("printed value forks")
         gv = got[0][1]
-        want = eval_tree(tree, {"b1": args[0], "b2": args[1], "b3": args[2]}, max(32, gv.width)).resize(gv.width)
+        b = [BV.var("b%d" % (i + 1), 8) for i in range(3)]
+        want = eval_tree(tree, {"b1": b[0], "b2": b[1], "b3": b[2]}, max(32, gv.width)).resize(gv.width)
         diff = compare(gv, want)
         r.add("%s::%s" % (fn.relfile(), fn.qn), "%s:%d" % (fn.relfile(), fn.line), not diff,
               "identical to the documented formula on all 2^24 inputs" if not diff else
               "the decoded GOTO/GOSUB target differs from doc/bbcbasic.5 (%s): %s" % (expr, "; ".join(diff[:4])))
+        # and the caller hands over the three bytes at the cursor, in order
+        for caller in prog.functions.values():
+            for c in caller.walk():
+                if c.get("k") == "CallExpr" and c.get("fn") == fn.key:
+                    a = call_args(c)
+                    ok = True
+                    if len(a) == 3 and all(strip_all(x).get("k") == "ArraySubscriptExpr" for x in a):
+                        idx = [folded(strip_all(x)["c"][1]) for x in a]
+                        ok = idx == [0, 1, 2]
+                    elif len(a) == 3:
+                        continue
+                    r.add("%s::%s::operands" % (caller.relfile(), caller.qn), caller.loc(c), ok,
+                          "operand bytes passed in order" if ok else
+                          "the three bytes after 0x8D are passed as %s, not in the order b1,b2,b3" % [show(x) for x in a])
     return r
 
 
